@@ -41,11 +41,3 @@ pub proof fn lemma_bits_gap(x1: int, p1: int, y1: int, q1: int, x2: int, p2: int
         }
     }
 }
-
-pub proof fn lemma_sign_prod(a: int, d: int)
-    requires d > 0
-    ensures (a < 0 ==> a * d < 0), (a > 0 ==> a * d > 0), (a == 0 ==> a * d == 0), rabs(a * d) == rabs(a) * d
-{
-    assert((a < 0 ==> a * d < 0) && (a > 0 ==> a * d > 0) && (a == 0 ==> a * d == 0)) by (nonlinear_arith) requires d > 0;
-    assert(rabs(a * d) == rabs(a) * d) by (nonlinear_arith) requires d > 0;
-}
